@@ -133,3 +133,33 @@ Definition py_most_dissimilar_packed (nf : option Z) (Y : list (list Z))
   let f2 := argmin_f s1 in
   let s2 := map2 (fun x c => sim_packed_precalc x (nth f2 Y []) c) Y cards in
   (f1, f2, s1, s2).
+
+(* ---------- add_rows<uint8_t> / jt_isim_unpacked_u8 / jt_isim_packed_u8 ---------- *)
+(* out[j] = 0; for each row i, for each column j: out[j] += uint64(arr[i][j]).  [w] = arr.shape(1)
+   (known also when the array has no rows); the entries are the uint8 values of the rows *)
+Definition cpp_add_rows (w : nat) (X : list (list Z)) : list Z :=
+  fold_left (fun acc r => map2 (fun a b => wrap64 (a + b)) acc r) X (repeat 0 w).
+Definition cpp_isim_unpacked (w : nat) (X : list (list Z)) : float :=
+  cpp_isim (cpp_add_rows w X) (zlen X).
+(* unpack_fingerprints on the 2-D input, add_rows over the unpacked array (its shape(1)), and the
+   row count of the packed input *)
+Definition cpp_isim_packed (nf : option Z) (X : list (list Z)) : option float :=
+  match cpp_unpack_2d nf X with
+  | None => None
+  | Some U =>
+      let width := match U with r :: _ => length r | [] => O end in
+      Some (cpp_isim (cpp_add_rows width U) (zlen X))
+  end.
+
+(* ---------- the Python fallback of the three (_py_similarity.py) ---------- *)
+(* exact column sums of integer rows of width [w] *)
+Definition zcolsum (w : nat) (X : list (list Z)) : list Z :=
+  fold_left (fun acc r => map2 Z.add acc r) X (repeat 0 w).
+(* np.sum(arr, axis=0, dtype=np.uint64): the column sums in uint64 arithmetic *)
+Definition py_add_rows (w : nat) (X : list (list Z)) : list Z := map wrap64 (zcolsum w X).
+(* jt_isim_unpacked: jt_isim_from_sum(np.sum(arr, axis=0, dtype=np.uint64), len(arr)) *)
+Definition py_isim_unpacked (X : list (list Z)) : float :=
+  isim_f (py_add_rows (match X with r :: _ => length r | [] => O end) X) (zlen X).
+(* jt_isim_packed: the same on unpack_fingerprints(fps, n_features), with len(fps) *)
+Definition py_isim_packed (nf : option Z) (X : list (list Z)) : float :=
+  py_isim_unpacked (map (fun r => map b2z (unpack nf r)) X).
